@@ -43,7 +43,7 @@ func TestC41(t *testing.T) {
 			}
 			s.initialLimits()
 			pr := DefaultProfile()
-			nops := 90 + r.Intn(60)
+			nops := 110 + r.Intn(60)
 			admin, refunds := 0, 0
 			for j := 0; j < nops; j++ {
 				cls := s.Step(pr)
